@@ -54,14 +54,12 @@ func convertPathToURL(path string, baseDir string, baseURL *url.URL) (string, er
 	if err != nil {
 		return "", fmt.Errorf("Cannot make relative path for %q: %v", path, err)
 	}
-	var result *url.URL
+	// The relative path is a file system path, not a URL reference: a '#', '?',
+	// '%' or ':' in a file name must end up percent-encoded in the URL's path
+	// instead of being interpreted as fragment, query, escape or scheme.
+	result := &url.URL{Path: filepath.ToSlash(relPath)}
 	if baseURL != nil {
-		result, err = baseURL.Parse(filepath.ToSlash(relPath))
-	} else {
-		result, err = url.Parse(filepath.ToSlash(relPath))
-	}
-	if err != nil {
-		return "", fmt.Errorf("Failed to construct URL for %s. err: %v", path, err)
+		result = baseURL.ResolveReference(result)
 	}
 	return result.String(), nil
 }
